@@ -48,6 +48,33 @@ func runC06(r *Report) {
 	}
 	one := func(spec string) ssa.CallInstruction {
 		cs := Calls(act, false, spec)
+		if len(cs) == 0 {
+			// the step may be wrapped in a same-package helper that performs it once and hands its
+			// result back (lookupCode-style): the helper's call is then the step's site
+			Instrs(act, func(in ssa.Instruction) {
+				hc, ok := in.(*ssa.Call)
+				if !ok {
+					return
+				}
+				h := hc.Common().StaticCallee()
+				if h == nil || h.Pkg != act.Pkg || len(h.Blocks) == 0 || h == act {
+					return
+				}
+				inner := Calls(h, false, spec)
+				if len(inner) != 1 {
+					return
+				}
+				passes := false
+				for _, ret := range Returns(h) {
+					if RetErrKind(ret) == "nil" && len(ret.Results) > 0 && valueIsResultOf(RetVal(ret, 0), inner[0], 0) {
+						passes = true
+					}
+				}
+				if passes || h.Signature.Results().Len() <= 1 {
+					cs = append(cs, hc)
+				}
+			})
+		}
 		if len(cs) != 1 {
 			r.Fail("R-C06-1", act.Pos(), fmt.Sprintf("expected exactly one call of %s in ActivateConnectionCode, found %d", spec, len(cs)), "ActivateConnectionCode", "anchor:"+spec)
 			return nil
@@ -385,12 +412,19 @@ func runC06(r *Report) {
 			for _, rt := range Origins(nx[0].Common().Args[0]) {
 				_ = rt
 			}
-			if bo, ok := nx[0].Common().Args[0].(*ssa.BinOp); ok {
-				if c, ok := bo.X.(*ssa.Const); ok {
-					prefix = constString(c)
+			// the key is evaluated from the source with the code parameter left symbolic (directly, or
+			// through a key helper such as claimKey(code))
+			env := map[*ssa.Parameter]string{}
+			for _, pp := range cf.Params {
+				if pp.Name() == "code" {
+					env[pp] = "\x00CODE\x00"
 				}
-				r.Ob("R-C06-5", CallPos(nx[0]), originSummary(bo.Y) == "param:code", "the claim key is derived from the code", "ClaimForUse", "claim-key")
 			}
+			key, okKey := evalString(nx[0].Common().Args[0], env, 0)
+			if i := strings.Index(key, "\x00CODE\x00"); okKey && i >= 0 {
+				prefix = key[:i]
+			}
+			r.Ob("R-C06-5", CallPos(nx[0]), okKey && strings.Contains(key, "\x00CODE\x00") && prefix != "", "the claim key is a constant prefix followed by the code ("+strings.ReplaceAll(key, "\x00", "")+")", "ClaimForUse", "claim-key")
 			// result returned unchanged
 			for _, ret := range Returns(cf) {
 				if c, idx := CallOfValue(RetVal(ret, 0)); c != nil && ssa.CallInstruction(c) == nx[0] {
@@ -403,6 +437,16 @@ func runC06(r *Report) {
 		r.Ob("R-C06-5", cf.Pos(), okNX && !emul, "the claim is a single SetNX (no Exists/Get followed by Set)", "ClaimForUse", "claim-atomic")
 		cat := hybridCategory(r, prefix)
 		r.Ob("R-C06-5", cf.Pos(), cat == "shared", fmt.Sprintf("claim key prefix %q classifies as %q in the hybrid configuration (want shared: one claim for the whole cluster)", prefix, cat), "ClaimForUse", "claim-shared")
+	}
+	// activation and revocation claim the same thing: the code string itself (claiming the record id
+	// in one place and the code in the other makes the two claims independent)
+	for _, nm := range []string{"Service.ActivateConnectionCode", "Service.RevokeConnectionCode"} {
+		if fn := r.P.Fn(ccPkg, nm); fn != nil {
+			for _, c := range Calls(fn, false, "ConnectionCodeRepository.ClaimForUse", "ConnectionCodeRepository.ReleaseClaim") {
+				o := originSummary(Arg(c, 0))
+				r.Ob("R-C06-5", CallPos(c), o == "param:code" || o == "field:ActivateRequest.Code(param:req)", CalleeOf(c).Name+" is applied to the code the caller presented ("+o+")", nm, "claims-the-code:"+CalleeOf(c).Name)
+			}
+		}
 	}
 	if rv := r.need("R-C06-5", ccPkg, "Service.RevokeConnectionCode"); rv != nil {
 		cl := Calls(rv, false, "ConnectionCodeRepository.ClaimForUse")
